@@ -174,6 +174,9 @@ fn link_trace(run: &mut Run, rng: &mut Rng, case: u64) -> anyhow::Result<()> {
 // ------------------------------------------------------------------ (B) network histories
 
 struct VNode {
+    /// clones of the user service alive on an idle network (manager etc.); every running connection
+    /// handler holds one more
+    base_clones: i64,
     node: Option<Node>,
     key: [u8; 32],
     idx: u16,
@@ -219,7 +222,9 @@ fn network_history(run: &mut Run, rng: &mut Rng, case: u64) -> anyhow::Result<()
             let key = key_of(seed, 1 + i as u16);
             let node = start_node_with(&fabric, 1 + i as u16, key, "verif", None, cfg.clone())?;
             let (log, _) = watch(&node.net, start);
-            nodes.push(VNode { id: node.id, node: Some(node), key, idx: 1 + i as u16, log, rpc_seq: 0 });
+            tokio::time::sleep(Duration::from_millis(5)).await;
+            let base_clones = node.svc.live_clones.load(std::sync::atomic::Ordering::SeqCst);
+            nodes.push(VNode { base_clones, id: node.id, node: Some(node), key, idx: 1 + i as u16, log, rpc_seq: 0 });
         }
         let ids: Vec<PeerId> = nodes.iter().map(|x| x.id).collect();
         let idx_of = |p: &PeerId| ids.iter().position(|x| x == p).unwrap_or(99);
@@ -289,6 +294,8 @@ fn network_history(run: &mut Run, rng: &mut Rng, case: u64) -> anyhow::Result<()
                     }
                     let node = start_node_with(&fabric, nodes[i].idx, nodes[i].key, "verif", None, cfg.clone())?;
                     let (log, _) = watch(&node.net, start);
+                    tokio::time::sleep(Duration::from_millis(5)).await;
+                    nodes[i].base_clones = node.svc.live_clones.load(std::sync::atomic::Ordering::SeqCst);
                     nodes[i].node = Some(node);
                     nodes[i].log = log;
                     // every peer that listed it reports the loss: at once if the close was delivered, else within
@@ -380,6 +387,16 @@ fn network_history(run: &mut Run, rng: &mut Rng, case: u64) -> anyhow::Result<()
                         }
                         counts.push(("quiescent-rpc".into(), "unlisted-refused".into()));
                     }
+                }
+            }
+            // one running handler task per listed peer, none for anybody else (C09_entry_iff_handler)
+            tokio::time::sleep(Duration::from_millis(100)).await;
+            for (k, x) in nodes.iter().enumerate() {
+                let n = x.node.as_ref().unwrap();
+                let handlers = n.svc.live_clones.load(std::sync::atomic::Ordering::SeqCst) - x.base_clones;
+                let listed = n.net.peers().len() as i64;
+                if handlers != listed {
+                    fails.push(json!({"kind": "the number of running connection handlers differs from the number of listed peers at a quiescent point", "history": hist.clone(), "node": k, "handlers": handlers, "listed": listed}));
                 }
             }
             counts.push(("network-op".into(), kind.to_string()));
